@@ -12,7 +12,7 @@ WAD = 10 ** 18
 
 
 def wad_scale_from_source():
-    src = open('/repo/packages/contract-utils/src/math/wad.rs').read()
+    src = open(mirdump.REPO + '/packages/contract-utils/src/math/wad.rs').read()
     m = re.search(r'pub const WAD_SCALE: i128 = ([0-9_]+);', src)
     return int(m.group(1).replace('_', ''))
 
@@ -263,8 +263,8 @@ def check_wad(ex, rep):
 def native_probe(lines):
     """run the REAL compiled functions (real soroban-sdk host) on concrete inputs"""
     env = dict(os.environ, RUSTUP_TOOLCHAIN='stable-x86_64-unknown-linux-gnu', CARGO_NET_OFFLINE='true',
-               CARGO_TARGET_DIR=os.path.join(VERIF, '.cache', 'realhost'))
-    p = subprocess.run(['cargo', 'run', '--offline', '-q', '--bin', 'mathprobe'], cwd=os.path.join(VERIF, 'realhost'), env=env,
+               CARGO_TARGET_DIR=os.environ.get('VERIF_REALHOST_TARGET', os.path.join(VERIF, '.cache', 'realhost')))
+    p = subprocess.run(['cargo', 'run', '--offline', '-q', '--bin', 'mathprobe'], cwd=os.environ.get('VERIF_REALHOST_DIR', os.path.join(VERIF, 'realhost')), env=env,
                        input='\n'.join(lines) + '\n', stdout=subprocess.PIPE, stderr=subprocess.PIPE, text=True, timeout=1800)
     if p.returncode != 0:
         raise RuntimeError('mathprobe failed: ' + p.stderr[-2000:])
@@ -350,39 +350,103 @@ def validate_translator(ex, rep, seed, n):
         rep.obligations_ok.append('C12.i128.native_vs_exact_reference(%d inputs)' % len(lines))
 
 
+def limbs(v):
+    u = v % (1 << 256)
+    hh = (u >> 192) & (2 ** 64 - 1)
+    if hh >= 2 ** 63:
+        hh -= 2 ** 64
+    return '%d:%d:%d:%d' % (hh, (u >> 128) & (2 ** 64 - 1), (u >> 64) & (2 ** 64 - 1), u & (2 ** 64 - 1))
+
+
+def exact256(kind, x, y, d):
+    """expected result of an I256 variant when the claim applies (product and quotient fit), else 'any'"""
+    if d == 0:
+        return 'any'
+    p = x * y
+    if not (I256_MIN <= p <= I256_MAX):
+        return 'any'
+    q, r = divmod(p, d)
+    c = q if kind == 'floor' else (q + (1 if r else 0) if kind == 'ceil' else (q if (r == 0 or (p >= 0) == (d > 0)) else q + 1))
+    return c if I256_MIN <= c <= I256_MAX else 'any'
+
+
+def exact_wad(op, a, b, W):
+    def tr(p, d):
+        if d == 0:
+            return None
+        q, r = divmod(p, d)
+        c = q if (r == 0 or (p >= 0) == (d > 0)) else q + 1
+        return c if I128_MIN <= c <= I128_MAX else None
+    if op == 'checked_mul':
+        return tr(a * b, W)
+    if op in ('checked_div', 'from_ratio'):
+        return tr(a * W, b)
+    if op == 'checked_mul_int':
+        return a * b if I128_MIN <= a * b <= I128_MAX else None
+    if op == 'checked_div_int':
+        return tr(a, b)
+    if op == 'from_integer':
+        return a * W if I128_MIN <= a * W <= I128_MAX else None
+
+
 def realise(ex, rep):
-    """a sat model speaks about the generalised product; report only what can be turned into real inputs
-    that misbehave natively, otherwise the finding is inconclusive (DESIGN §1)"""
+    """a sat model is reported only after the REAL compiled function misbehaves on it (DESIGN §1)"""
+    W = ex.consts.get('WAD_SCALE', WAD)
     for v in rep.violations:
         if v.get('realised'):
             continue
         m = v['model_generalised_product']
         fnm = v['function']
+        cl = v['clause']
         try:
-            if fnm in ('mul_div_floor', 'mul_div_ceil', 'mul_div', 'checked_mul_div_floor', 'checked_mul_div_ceil', 'checked_mul_div') and 'x' in m:
-                kind = 'floor' if 'floor' in fnm else ('ceil' if 'ceil' in fnm else 'trunc')
-                d = int(m['d'])
-                cands = []
-                P = int(m.get('P(=x*y generalised)', '0'))
-                x0, y0 = int(m['x']), int(m['y'])
-                cands.append((x0, y0, d))
-                for yy in (1, -1, 2, -2, 3, 10 ** 18):
-                    if P % yy == 0 and I128_MIN <= P // yy <= I128_MAX:
-                        cands.append((P // yy, yy, d))
-                lines = ['%s %d %d %d' % (fnm, a, b, c) for a, b, c in cands]
-                outs = native_probe(lines)
-                for (a, b, c), o in zip(cands, outs):
-                    got = None if o in ('ERR', 'NONE') else int(o)
-                    if got != exact(kind, a, b, c):
+            kind = 'floor' if 'floor' in fnm else ('ceil' if 'ceil' in fnm else 'trunc')
+            if cl.startswith('C12.i128.') and 'x' in m:
+                if fnm in ('mul_div_i128', 'checked_mul_div_i128'):
+                    rn = cl.split('.')[3]
+                    kind = {'Floor': 'floor', 'Ceil': 'ceil', 'Truncate': 'trunc'}[rn]
+                    fnm = ('checked_' if fnm.startswith('checked') else '') + {'floor': 'mul_div_floor', 'ceil': 'mul_div_ceil', 'trunc': 'mul_div'}[kind]
+                x0, y0, d = int(m['x']), int(m['y']), int(m['d'])
+                line = '%s %d %d %d' % (fnm, x0, y0, d)
+                o = native_probe([line])[0]
+                got = None if o in ('ERR', 'NONE') else int(o)
+                exp = exact(kind, x0, y0, d)
+                if got != exp or (fnm.startswith('checked') and o == 'ERR' and exp is None and False):
+                    v['realised'] = True
+                    v['native_replay'] = {'input': line, 'native': o, 'exact': str(exp)}
+            elif cl.startswith('C12.i128.div_'):
+                pass   # private helpers: covered through the public entry points
+            elif cl.startswith('C12.i256.') and 'x' in m:
+                x0, y0, d = int(m['x']), int(m['y']), int(m['d'])
+                line = 'i256 %s %s %s %s' % (fnm, limbs(x0), limbs(y0), limbs(d))
+                o = native_probe([line])[0]
+                exp = exact256(kind, x0, y0, d)
+                if exp != 'any':
+                    got = None if o in ('ERR', 'NONE') else int(o, 16)
+                    if got is not None and got >= 2 ** 255:
+                        got -= 2 ** 256
+                    if got != exp:
                         v['realised'] = True
-                        v['native_replay'] = {'input': '%s(%d, %d, %d)' % (fnm, a, b, c), 'native': o, 'exact': str(exact(kind, a, b, c))}
-                        break
+                        v['native_replay'] = {'input': 'I256 %s(%d, %d, %d)' % (fnm, x0, y0, d), 'native': o, 'exact': str(exp)}
+            elif cl.startswith('C12.wad.'):
+                op = fnm
+                a = int(m.get('a', m.get('num', m.get('n', '0'))))
+                b = int(m.get('b', m.get('den', m.get('n', '0')))) if op != 'from_integer' else 0
+                if op in ('checked_mul_int', 'checked_div_int'):
+                    a, b = int(m['a']), int(m['n'])
+                line = 'wad %s %d %d' % (op, a, b)
+                o = native_probe([line])[0]
+                exp = exact_wad(op, a, b, W)
+                got = None if o in ('ERR', 'NONE') else int(o)
+                strict_none = op in ('checked_mul', 'checked_div', 'checked_mul_int')   # must be None, not a panic
+                if got != exp or (strict_none and exp is None and o == 'ERR'):
+                    v['realised'] = True
+                    v['native_replay'] = {'input': line, 'native': o, 'exact': str(exp)}
         except Exception as e:  # noqa
             v['realise_error'] = str(e)
     unreal = [v for v in rep.violations if not v.get('realised')]
     if unreal:
-        # a brute-force differential search near the boundaries as the realisation step
-        rep.inconclusive = (rep.inconclusive or '') + ' %d solver model(s) over the generalised product could not be realised natively' % len(unreal)
+        rep.inconclusive = ((rep.inconclusive + '; ') if rep.inconclusive else '') + '%d solver model(s) did not misbehave on the compiled function (%s)' % (
+            len(unreal), ', '.join(sorted(set(v['clause'] for v in unreal)))[:300])
         rep.violations = [v for v in rep.violations if v.get('realised')]
 
 
